@@ -490,6 +490,7 @@ func c10CaseRoundX(t *testing.T, h *vHarness, r *vRand, cg *c10Cgroup, beDir str
 
 		// ---- oracle
 		want, resBinding, _, _, _ := c10BudgetStatement(h, in, o.annoEff)
+		c10TagAnnoBinds(h, in, o.annoEff, resBinding, "roundx")
 		budgets := []int64{c10BudgetFloor(in, want)}
 		if resBinding && c10BudgetFloor(in, want+1) != budgets[0] {
 			budgets = append(budgets, c10BudgetFloor(in, want+1))
